@@ -94,6 +94,19 @@ def run(chk, replay=None):
         events.append(e)
         meta.append((t, tr))
         ev.case((t, d._verif_byte0 >> 5, tr, fresh, tuple(sorted(e["others"].values()))))
+        if exc or e["set"] == "other":
+            return
+        # the commands the facade finds by operation code: what is sent now depends on this device's set only
+        for code, call in (("9E", lambda f: f.readcapacity16()), ("A3", lambda f: f.reporttargetportgroups())):
+            del w.seen[:]
+            pexc = ""
+            try:
+                call(facade[0])
+            except BaseException as ex:         # StopIteration included: "not offered" surfaces in many ways
+                pexc = type(ex).__name__
+            events.append({"ev": "probe", "set": e["set"], "code": code, "sent": [c[0] for c in w.seen], "exc": pexc,
+                           "type": t, "tr": tr})
+            meta.append((t, tr))
 
     try:
         # every type x qualifier on a fresh facade, both transports
